@@ -445,7 +445,11 @@ def cas_check(obs):
 
 # ---- history generation -------------------------------------------------------------------------------------
 CONTENTS = [b"", b"hello\n", b"hello\r\n", b"hello", b"he\nllo", b"a\nb\n", b"a\r\nb\r\n", b"\0bin\n", b"x" * 7999 + b"\0", b"x" * 8000 + b"\0",
-            b"x" * 7998 + b"\n\0", b"x" * 8001 + b"\0", b"y" * 7999 + b"\r\n", b"line1\nline2\n", b"\xff\xfe\n", b"other", b"other\n"]
+            b"x" * 7998 + b"\n\0", b"x" * 8001 + b"\0", b"y" * 7999 + b"\r\n", b"line1\nline2\n", b"\xff\xfe\n", b"other", b"other\n",
+            # CR/LF content whose first NUL sits just outside the 8000-byte window is TEXT (and just inside: binary):
+            # the raw and the CR/LF-stripped digests differ, so a shifted window changes the address
+            b"a\r\nb\n" + b"x" * 7994 + b"\0", b"a\r\nb\n" + b"x" * 7995 + b"\0", b"a\r\nb\n" + b"x" * 8100 + b"\0tail",
+            b"a\nb\r\n" + b"z" * 8186 + b"\0", b"a\nb\r\n" + b"z" * 8187 + b"\0"]
 PATHS = ["a.txt", "b.txt", "d/a.txt", "d/e/c.dat", "noext", "sp ace.txt", "ü.txt", "a.dat", ".hidden", "x.tar.gz"]
 
 
